@@ -12,6 +12,7 @@ import (
 	"sort"
 	"strconv"
 	"strings"
+	"syscall"
 
 	"github.com/protobom/protobom/pkg/sbom"
 	"google.golang.org/protobuf/proto"
@@ -488,10 +489,17 @@ func runC20(seed int64, n int, dir string, tier string) *Report {
 					fd := filepath.Join(base, fmt.Sprintf("fail%d%s", k, errno))
 					_ = os.Mkdir(fd, 0o755)
 					setup(fd)
+					ino0 := inodeOf(filepath.Join(fd, final))
 					cmd := exec.Command("strace", "-f", "-qq", "-o", "/dev/null", "-e", "trace="+kp.syscall,
 						"-e", fmt.Sprintf("inject=%s:error=%s:when=%d", kp.syscall, errno, kp.nth),
 						storechildPath(), "store", fd, docfile, noclobber)
 					outb, _ := cmd.Output()
+					// an entry is replaced by putting another file in its place: a store that changed what the entry
+					// holds while the entry is still the same file wrote it in place, and a crash in the middle of
+					// that leaves neither the previous nor the new document (whatever made the store take that path)
+					if now, _ := os.ReadFile(filepath.Join(fd, final)); overwrite && !linked && ino0 != 0 && inodeOf(filepath.Join(fd, final)) == ino0 && string(now) != string(oldB) {
+						rep.Fail(Failure{What: "a store changed the content of an existing entry in place (same file, new bytes) instead of replacing it atomically", Detail: fmt.Sprintf("%s failing with %s at %s; the entry is still inode %d and now holds %d bytes that are not the previous document", kp.syscall, errno, kp.line, ino0, len(now)), Input: map[string]any{"overwrite": overwrite, "id": id, "failed_call": kp.line, "errno": errno}})
+					}
 					co := childOut{}
 					_ = json.Unmarshal([]byte(strings.TrimSpace(string(outb))), &co)
 					rep.OracleEvals++
@@ -540,6 +548,18 @@ func runC20(seed int64, n int, dir string, tier string) *Report {
 	rep.CasesFiles = cf.Write(filepath.Join(dir, "cases_C20"))
 	rep.ShardSize = shardSize
 	return rep
+}
+
+// inodeOf: the inode number of a path (not following a final symbolic link), 0 when there is none
+func inodeOf(p string) uint64 {
+	fi, err := os.Lstat(p)
+	if err != nil {
+		return 0
+	}
+	if st, ok := fi.Sys().(*syscall.Stat_t); ok {
+		return st.Ino
+	}
+	return 0
 }
 
 func summarize(v map[string]string) map[string]string {
